@@ -205,6 +205,51 @@ def g1_cast_is_round(ctx: Ctx):
     ctx.check('return ctx in _NATIVE_CTXS' in norm(nt, 4000), TARGET, nt, 'is_native_ctx', 'native = a whole context of the op table (format, overflow rule and random bits included)', 'changed')
 
 
+# ----------------------------------------------------------------------
+# G2 a name becomes a C++ reference to another name's storage only when neither is ever rebound
+
+STORAGE = 'fpy2/backend/cpp/storage_infer.py'
+
+
+def g2_reference_binding(ctx: Ctx):
+    """`ys = xs` may be emitted as `const auto& ys = xs;` only while `xs` keeps naming that list: a later `xs = [...]`
+    leaves FPy's `ys` on the old list but drags a C++ reference along.  Every arm of `binds_by_reference` that answers
+    for an alias of another variable must consult `is_rebound` on that variable's definition."""
+    q = 'binds_by_reference'
+    fn = ctx.fn(STORAGE, q)
+    pre = [s for s in fn.body if isinstance(s, ast.If) and norm(s.test) == 'is_rebound(storage, d)' and norm(s.body[0]) == 'return False']
+    ctx.check(len(pre) == 1, STORAGE, fn, q, 'a name that is itself rebound is never a reference', 'no early refusal for a rebound name')
+    ms = [s for s in walk_no_nested(fn) if isinstance(s, ast.Match)]
+    if len(ms) != 1:
+        raise ShapeError('binds_by_reference: match not found')
+    seen = 0
+    for c in ms[0].cases:
+        p = c.pattern
+        if not (isinstance(p, ast.MatchClass) and dotted(p.cls) == 'Assign' and 'expr' in p.kwd_attrs):
+            continue
+        sub = p.kwd_patterns[p.kwd_attrs.index('expr')]
+        kind = ' '.join(ast.unparse(sub).split())
+        seen += 1
+        rets = [s for s in c.body if isinstance(s, ast.Return)]
+        ok = False
+        why = 'no return'
+        if len(rets) == 1:
+            v = rets[0].value
+            conj = [norm(x) for x in (v.values if isinstance(v, ast.BoolOp) and isinstance(v.op, ast.And) else [v])]
+            guarded = [x for x in conj if x.startswith('not is_rebound(storage, def_use.find_def_from_use(')]
+            declared = 'd in storage.declare_at_assign' in conj
+            ok = bool(guarded) and declared
+            why = f'returns {norm(v)[:140]}'
+        ctx.check(ok, STORAGE, c.pattern, q, f'`name = {kind}`: a reference only if declared here and the source variable is never rebound',
+                  f'{why}: after `ys = xs; if c: xs = [7, 8]` the emitted reference `ys` follows the new list, the interpreter\'s `ys` keeps the old one')
+    if seen < 2:
+        raise ShapeError(f'binds_by_reference: only {seen} alias arms found')
+    ir = ctx.fn(STORAGE, 'is_rebound')
+    t = norm(ir, 3000)
+    ctx.check('m is not d and isinstance(m, AssignDef) and isinstance(m.site, Assign)' in t and 'storage.class_members[cls]' in t, STORAGE, ir, 'is_rebound',
+              'rebound = another plain assignment to the same storage class (an element store is not a rebind)', 'changed')
+
+
 EXPLANATION = (
     'Thin structural claim over the C++ backend (ast only). Decided: (T1) every <cmath> table row names std::<op> for the '
     'node class of the same operation in the table of its arity; infix/prefix arithmetic; Abs split by domain; float '
@@ -224,11 +269,16 @@ RULES = [
     Rule('C11.P1', 'fesetround save/set/restore pairing on every exit, including return', p1_fenv_pairing, 8, 'P'),
     Rule('C11.X1', 'every node kind is emitted or refused; no signature => CppEmitError; widening only under REAL', x1_emit_or_refuse, 40, 'X'),
     Rule('C11.G1', 'explicit roundings are emitted as casts only when the context is exactly a machine format', g1_cast_is_round, 5, 'G'),
+    Rule('C11.G2', 'a list name is bound as a C++ reference to another variable only when neither is ever rebound', g2_reference_binding, 4, 'G'),
 ]
 
 from ..selftest import Mutant  # noqa: E402
 
 MUTANTS = [
+    Mutant('alias-of-a-rebound-variable-is-a-reference', STORAGE, "        case Assign(expr=Var() as src):\n            return (\n                d in storage.declare_at_assign\n                and not is_rebound(storage, def_use.find_def_from_use(src))\n            )",
+           "        case Assign(expr=Var()):\n            return d in storage.declare_at_assign", 'C11.G2', 'seeded change C11b'),
+    Mutant('projection-of-a-rebound-variable-is-a-reference', STORAGE, "                and d in storage.declare_at_assign\n                and not is_rebound(storage, def_use.find_def_from_use(root))",
+           "                and d in storage.declare_at_assign", 'C11.G2'),
     Mutant('floor-is-ceil', TARGET, "(Floor, 'std::floor'),", "(Floor, 'std::ceil'),", 'C11.T1'),
     Mutant('roundint-is-nearbyint', TARGET, "(RoundInt, 'std::round'),", "(RoundInt, 'std::nearbyint'),", 'C11.T1', 'ties away vs current mode'),
     Mutant('fmod-is-remainder', TARGET, "(Fmod, 'std::fmod'),", "(Fmod, 'std::remainder'),", 'C11.T1'),
